@@ -99,6 +99,80 @@ Definition merge_overlapping (s : sseg) (below : list sseg) (op rule : Z) : sseg
       (set_fields c w ow (sSelf s') (sOSelf s') (in_result c op rule) (sOverlapped s'), merged, rest)
     end.
 
+(* ------------------------------------------------------------------ pointer form: any ORDER of merges *)
+
+(** The right endpoints of coincident segments are processed in whatever order the event queue yields, so
+    mergeOverlapping runs on the members of a bundle in any order and walks the [prev] links that earlier
+    merges have already redirected.  [pcol] is the column bottom-to-top with the explicit prev link of every
+    segment (index into the column). *)
+Definition pcol := list (sseg * option nat).
+
+Fixpoint link_from (i : nat) (m : list sseg) : pcol :=
+  match m with
+  | [] => []
+  | s :: r => (s, match i with O => None | S j => Some j end) :: link_from (S i) r
+  end.
+Definition link (m : list sseg) : pcol := link_from 0 m.
+
+Fixpoint pupdate (col : pcol) (i : nat) (x : sseg * option nat) : pcol :=
+  match col, i with
+  | [], _ => []
+  | _ :: r, O => x :: r
+  | y :: r, S j => y :: pupdate r j x
+  end.
+
+Definition onat_eqb (a b : option nat) : bool :=
+  match a, b with None, None => true | Some x, Some y => Nat.eqb x y | _, _ => false end.
+
+(** the loop of mergeOverlapping: follows prev links from [cur], absorbing coincident not yet overlapped segments *)
+Fixpoint pwalk (fuel : nat) (col : pcol) (s : sseg) (cur : option nat) : pcol * sseg * option nat :=
+  match fuel with
+  | O => (col, s, cur)
+  | S f =>
+    match cur with
+    | None => (col, s, None)
+    | Some i =>
+      match nth_error col i with
+      | None => (col, s, cur)
+      | Some (p, pp) =>
+        if sOverlapped p || negb (sPos s =? sPos p) then (col, s, cur)
+        else
+          let s' := if Bool.eqb (sClip s) (sClip p)
+                    then set_fields s (sW s) (sOW s) (sSelf s + sSelf p) (sOSelf s + sOSelf p) (sIn s) (sOverlapped s)
+                    else set_fields s (sW s) (sOW s) (sSelf s + sOSelf p) (sOSelf s + sSelf p) (sIn s) (sOverlapped s) in
+          pwalk f (pupdate col i (set_fields p 0 0 0 0 0 true, pp)) s' pp
+      end
+    end
+  end.
+
+(** mergeOverlapping on segment [k] of the column *)
+Definition merge_at (col : pcol) (k : nat) (op rule : Z) : pcol :=
+  match nth_error col k with
+  | None => col
+  | Some (s, sp) =>
+    if sOverlapped s then col
+    else
+      let '(col', s', stop) := pwalk (length col) col s sp in
+      if onat_eqb stop sp then col
+      else
+        let '(w, ow) :=
+          match stop with
+          | None => (0, 0)
+          | Some j =>
+            match nth_error col' j with
+            | None => (0, 0)
+            | Some (p, _) =>
+              if Bool.eqb (sClip s') (sClip p) then (sW p + sSelf p, sOW p + sOSelf p)
+              else (sOW p + sOSelf p, sW p + sSelf p)
+            end
+          end in
+        let c := set_fields s' w ow (sSelf s') (sOSelf s') 0 (sOverlapped s') in
+        pupdate col' k (set_fields c w ow (sSelf s') (sOSelf s') (in_result c op rule) (sOverlapped s'), stop)
+  end.
+
+Definition merge_seq (col : pcol) (ks : list nat) (op rule : Z) : pcol :=
+  fold_left (fun c k => merge_at c k op rule) ks col.
+
 (* ------------------------------------------------------------------ what the fields mean *)
 
 (** total winding contribution of kind [c] (false = subject, true = clipping) of the non-vertical
